@@ -228,7 +228,8 @@ def oracle(w, source, bounds, attr=None, mask=None):
         out = w.arrays[(source, attr)][tuple(idx)].astype(float)
         out[invalid] = np.nan
     else:
-        out = w.masks[mask][tuple(idx)].copy()
+        full = (w.arrays[(source, 's')] > float(mask[4:])) if mask.startswith('tmp:') else w.masks[mask]
+        out = full[tuple(idx)].copy()
         out[invalid] = False
     sl = tuple(slice(None) if isinstance(b, tuple) else 0 for b in bounds)
     return out[sl], int(invalid[sl].sum()), int((~invalid[sl]).sum())
@@ -269,7 +270,13 @@ def real_request(w, req, cache_id=None):
     kw = {} if cache_id is None else dict(cache_id=cache_id)
     if kind == 'val':
         return S.compute_fixed_resolution_buffer(list(bounds), target_data=target, target_cid=S.id[what], **kw)
-    return S.compute_fixed_resolution_buffer(list(bounds), target_data=target, subset_state=w.states[what], **kw)
+    if what.startswith('tmp:'):
+        # a selection object made for this one request and dropped right after it (what a viewer does while the
+        # user drags a threshold): a later object may well live at the same address
+        state = S.id['s'] > float(what[4:])
+    else:
+        state = w.states[what]
+    return S.compute_fixed_resolution_buffer(list(bounds), target_data=target, subset_state=state, **kw)
 
 
 def oracle_request(w, req):
@@ -332,6 +339,17 @@ def check_requests(res, cfg, first):
 
 
 # --------------------------------------------------------------------------- cache sequences
+def _tmp_thresholds(cfg):
+    """three thresholds inside the value range of S.s (values k*arange+c): different non-trivial masks"""
+    k, c = VALUE_PALETTES[core.seed() % len(VALUE_PALETTES)]
+    n = int(np.prod(cfg['rshape'][:len(cfg['perm'])])) if False else None
+    size = 1
+    for ra in cfg['perm']:
+        size *= cfg['rshape'][ra]
+    vals = sorted(k * i + c for i in range(size))
+    return [vals[size // 4] + 0.25, vals[size // 2] + 0.25, vals[(3 * size) // 4] + 0.25]
+
+
 def cache_alphabet(cfg):
     """~12 requests: different bounds (scalar moved along every axis, other ranges, other orientation, full
     cube), attributes, selections and datasets."""
@@ -361,6 +379,8 @@ def cache_alphabet(cfg):
         A.append(('m.roi@0=1/wide1', ['mask', 'S', 'roi', jb(with_scalar(0, 1, [None, (-1, 3, 5), (0, 3, 4)]))]))
         # the same source and bounds, but asked in the pixel frame of another reference dataset
         A.append(('v.s@0=0/frame:S2', ['val', 'S', 's', jb(with_scalar(0, 0)), 'S2']))
+        for thr in _tmp_thresholds(cfg):
+            A.append(('m.tmp%g@0=0' % thr, ['mask', 'S', 'tmp:%r' % thr, jb(with_scalar(0, 0))]))
     else:
         A.append(('v.s/full', ['val', 'S', 's', jb(full)]))
         A.append(('v.s@0=0', ['val', 'S', 's', jb(with_scalar(0, 0))]))
@@ -375,6 +395,8 @@ def cache_alphabet(cfg):
         A.append(('v.s/sub', ['val', 'S', 's', jb([(0, 2, 3), (1, 3, 3)])]))
         A.append(('m.roi@0=1', ['mask', 'S', 'roi', jb(with_scalar(0, 1))]))
         A.append(('v.s/full/frame:S2', ['val', 'S', 's', jb(full), 'S2']))
+        for thr in _tmp_thresholds(cfg):
+            A.append(('m.tmp%g/full' % thr, ['mask', 'S', 'tmp:%r' % thr, jb(full)]))
     return A
 
 
